@@ -28,7 +28,7 @@ Definition upd_data (m : mfs) (f : gmap (list (list N)) (list N) -> gmap (list (
 Definition add (m : mfs) (e : entry) : mfs * mres rpath :=
   let path := e_path e in
   match path with
-  | [] => (m, inl [])                                   (* the root is never re-created *)
+  | [] => if e_file e then (m, inr EIsNotFile) else (m, inl [])   (* the root is never re-created; it is not a file *)
   | base :: dir =>
       match m_ents m !! dir with
       | None => (m, inr EDoesNotExist)
@@ -278,43 +278,50 @@ Fixpoint move_loop (fuel : nat) (m : mfs) (src_root dst_target : rpath) (paths :
       end
   end.
 
-(* Memfs::move_p (after its fix: everything is validated before the first mutation) *)
-Definition move_op (env : envmap) (m : mfs) (src dst : list N) : outcome (mfs * mres unit) :=
+(* Memfs::move_p (after its fix): everything is validated before the first mutation *)
+Inductive move_plan := MvErr (e : errkind) | MvNoop | MvGo (sp dt : rpath).
+
+Definition move_validate (env : envmap) (m : mfs) (src dst : list N) : move_plan :=
   match resolve env m src with
-  | inr e => Done (m, inr e)
+  | inr e => MvErr e
   | inl sp =>
       match resolve env m dst with
-      | inr e => Done (m, inr e)
+      | inr e => MvErr e
       | inl dp =>
           let copy_into := is_dir_at m dp in
           match m_ents m !! sp with
-          | None => Done (m, inr EDoesNotExist)
+          | None => MvErr EDoesNotExist
           | Some _ =>
               (* dst_root.mash(src_root.base()?) *)
-              match (if copy_into then match sp with [] => inl dp | b :: _ => inl (b :: dp) end else inl dp) : rpath + errkind with
-              | inr e => Done (m, inr e)
-              | inl dt =>
-                  if bool_decide (dt = sp) then Done (m, inl tt) else
-                  match dt with
-                  | [] => Done (m, inr EParentNotFound)               (* dst_target.dir()? *)
-                  | _ :: ddir =>
-                      if is_under dt sp then Done (m, inr EParentNotFound) else
-                      match m_ents m !! ddir with
-                      | None => Done (m, inr EDoesNotExist)
-                      | Some x =>
-                          if negb (e_dir x && negb (e_link x)) then Done (m, inr EIsNotDir) else
-                          let blocked := match m_ents m !! dt with
-                                         | Some y => match e_files y with Some fs => negb (bool_decide (fs = ∅)) | None => false end
-                                         | None => false
-                                         end in
-                          if blocked then Done (m, inr EDirContainsFiles) else
-                          let m0 := match m_ents m !! dt with Some _ => upd_data m (delete dt) | None => m end in
-                          move_loop (2 * size (m_ents m) + 2) m0 sp dt [sp]
-                      end
+              let dt := if copy_into then match sp with [] => dp | b :: _ => b :: dp end else dp in
+              if bool_decide (dt = sp) then MvNoop else
+              match dt with
+              | [] => MvErr EParentNotFound                        (* dst_target.dir()? *)
+              | _ :: ddir =>
+                  if is_under dt sp then MvErr EParentNotFound else
+                  match m_ents m !! ddir with
+                  | None => MvErr EDoesNotExist
+                  | Some x =>
+                      if negb (e_dir x && negb (e_link x)) then MvErr EIsNotDir else
+                      let blocked := match m_ents m !! dt with
+                                     | Some y => match e_files y with Some fs => negb (bool_decide (fs = ∅)) | None => false end
+                                     | None => false
+                                     end in
+                      if blocked then MvErr EDirContainsFiles else MvGo sp dt
                   end
               end
           end
       end
+  end.
+
+Definition move_op (env : envmap) (m : mfs) (src dst : list N) : outcome (mfs * mres unit) :=
+  match move_validate env m src dst with
+  | MvErr e => Done (m, inr e)
+  | MvNoop => Done (m, inl tt)
+  | MvGo sp dt =>
+      (* replacing an existing destination: drop its stale data *)
+      let m0 := match m_ents m !! dt with Some _ => upd_data m (delete dt) | None => m end in
+      move_loop (2 * size (m_ents m) + 2) m0 sp dt [sp]
   end.
 
 (* ---- cwd ---- *)
